@@ -1,7 +1,7 @@
 #!/bin/sh
 # usage: tools/try_mutant.sh <patch file> <ID>...   applies the patch to /repo, runs the quick checks, reverts.
 set -u
-PATCH="$1"; shift
+PATCH="$(readlink -f "$1")"; shift
 cd /repo || exit 2
 if ! git diff --quiet; then echo "/repo has uncommitted changes" >&2; exit 2; fi
 git apply "$PATCH" || { echo "patch does not apply" >&2; exit 2; }
